@@ -1,8 +1,10 @@
 (* tax.Total as a value: Clone, Negate, Merge, Matches, Calculate (tax/totals.go) and the payment
    calculation that uses them (bill/payment.go, bill/payment_line.go, org/document_ref.go).
    The functions without suffix follow the repaired code (fix commits recorded in
-   KNOWN_FINDINGS.json); the *_shipped variants keep the earlier behaviour for the refutation
-   theorems.  No proofs in this file. *)
+   KNOWN_FINDINGS.json / findings/C20.json); the *_shipped variants keep the earlier behaviour for
+   the refutation theorems.  The model is a value model: Go's Merge additionally has to copy the
+   operand's rows (rt.clone / ct.clone) so that the result shares no pointer with an operand; that
+   clause is checked on the Go side only (harness/c20.go).  No proofs in this file. *)
 From Coq Require Import ZArith List Bool.
 From Verif Require Import Base.Wire Base.Rha Num.Amount Calc.Doc Calc.Calc.
 Import ListNotations.
@@ -66,22 +68,52 @@ Definition sur_merge_shipped (a b : option amount) : option amount :=
   | _, _ => b
   end.
 
-Definition ct_merge_with (sm : option amount -> option amount -> option amount) (m c : cat_total) : cat_total :=
-  mkCT (ct_code m) (ct_retained m) (fold_left merge_rate (ct_rates c) (ct_rates m))
-       (add (ct_amount m) (ct_amount c)) (sm (ct_surcharge m) (ct_surcharge c)) (ct_precise m).
+(* CategoryTotal.PreciseAmount / Total.PreciseSum: the unexported working-precision figure when it
+   is set (non-zero), the presented figure otherwise *)
+Definition ct_PreciseAmount (c : cat_total) : amount := precise_or (ct_precise c) (ct_amount c).
+Definition tt_PreciseSum (t : tax_total) : amount := precise_or (tt_precise t) (tt_sum t).
+(* x.MatchPrecision(y).Add(y): nothing is rounded away *)
+Definition add_precise (x y : amount) : amount := add (match_precision x y) y.
 
-Fixpoint merge_cat_with sm (cts : list cat_total) (c : cat_total) : list cat_total :=
+(* what Merge does with the three figures that were repaired at different times: the category
+   surcharge, the category's unexported amount, the summary's unexported sum *)
+Record merge_policy := mkMP {
+  mp_sur : option amount -> option amount -> option amount;
+  mp_cat_precise : cat_total -> cat_total -> amount;
+  mp_sum_precise : tax_total -> tax_total -> amount
+}.
+(* repaired: pa := ct.PreciseAmount(); catTotal.amount = catTotal.PreciseAmount().MatchPrecision(pa).Add(pa)
+             ps := t2.PreciseSum();    nt.sum = nt.PreciseSum().MatchPrecision(ps).Add(ps) *)
+Definition mp_repaired : merge_policy :=
+  mkMP sur_merge
+       (fun m c => add_precise (ct_PreciseAmount m) (ct_PreciseAmount c))
+       (fun t t2 => add_precise (tt_PreciseSum t) (tt_PreciseSum t2)).
+(* as shipped: catTotal.amount untouched; nt.sum = nt.sum.Add(t2.sum) *)
+Definition mp_shipped : merge_policy :=
+  mkMP sur_merge_shipped
+       (fun m _ => ct_precise m)
+       (fun t t2 => add (tt_precise t) (tt_precise t2)).
+(* the surcharge repaired, the unexported figures as shipped (the state before the last repair) *)
+Definition mp_precise_shipped : merge_policy :=
+  mkMP sur_merge (mp_cat_precise mp_shipped) (mp_sum_precise mp_shipped).
+
+Definition ct_merge_with (mp : merge_policy) (m c : cat_total) : cat_total :=
+  mkCT (ct_code m) (ct_retained m) (fold_left merge_rate (ct_rates c) (ct_rates m))
+       (add (ct_amount m) (ct_amount c)) (mp_sur mp (ct_surcharge m) (ct_surcharge c)) (mp_cat_precise mp m c).
+
+Fixpoint merge_cat_with mp (cts : list cat_total) (c : cat_total) : list cat_total :=
   match cts with
   | [] => [c]
-  | m :: rest => if eqb_bytes (ct_code m) (ct_code c) then ct_merge_with sm m c :: rest
-                 else m :: merge_cat_with sm rest c
+  | m :: rest => if eqb_bytes (ct_code m) (ct_code c) then ct_merge_with mp m c :: rest
+                 else m :: merge_cat_with mp rest c
   end.
 
-Definition tt_merge_with sm (t t2 : tax_total) : tax_total :=
-  mkTT (fold_left (merge_cat_with sm) (tt_cats t2) (tt_cats t))
-       (add (tt_sum t) (tt_sum t2)) (add (tt_precise t) (tt_precise t2)).
-Definition tt_merge := tt_merge_with sur_merge.
-Definition tt_merge_shipped := tt_merge_with sur_merge_shipped.
+Definition tt_merge_with mp (t t2 : tax_total) : tax_total :=
+  mkTT (fold_left (merge_cat_with mp) (tt_cats t2) (tt_cats t))
+       (add (tt_sum t) (tt_sum t2)) (mp_sum_precise mp t t2).
+Definition tt_merge := tt_merge_with mp_repaired.
+Definition tt_merge_shipped := tt_merge_with mp_shipped.
+Definition tt_merge_precise_shipped := tt_merge_with mp_precise_shipped.
 
 (* ---- Total.Calculate (recalculation of a summary from its bases; used by DocumentRef) ---- *)
 Definition tt_calculate_from (init_sur : cat_total -> option amount) (cr : bool) (c : nat) (t : tax_total) : tax_total :=
